@@ -32,7 +32,7 @@ pub enum Life {
 }
 
 pub struct Conn {
-    fut: Option<Pin<Box<dyn Future<Output = ()>>>>,
+    pub fut: Option<Pin<Box<dyn Future<Output = ()>>>>,
     client: Option<DuplexStream>,
     pub life: Life,
     /// socket events (lines, codec errors, EOF) written but not yet handled
